@@ -18,7 +18,7 @@ import time
 
 VERIF = os.path.dirname(os.path.dirname(os.path.abspath(__file__)))
 REPO = os.environ.get("VERIF_REPO", "/repo")
-WORK = os.path.join(VERIF, ".work")
+WORK = os.environ.get("VERIF_WORK") or os.path.join(VERIF, ".work")
 DRIVER = os.path.join(VERIF, "engines", "mirfacts", "target", "release", "mirfacts")
 
 LIB_CRATES = ["emit", "emit_core", "emit_macros", "emit_batcher", "emit_file", "emit_otlp",
